@@ -45,9 +45,10 @@ def own_nodes(fnode):
 
 
 class Canon:
-    def __init__(self, fnode, self_attrs: bool = False):
+    def __init__(self, fnode, self_attrs: bool = False, inliner=None):
         self.fnode = fnode
         self.self_attrs = self_attrs
+        self.inliner = inliner  # call node -> replacement expression (see helper_inliner) or None
         self.params = set(params_of(fnode))
         # name -> list of (kind, payload) bindings in source order
         self.bindings: Dict[str, List[Tuple[str, object]]] = {}
@@ -86,6 +87,11 @@ class Canon:
         for n in nodes:
             if isinstance(n, ast.Assign):
                 for t in n.targets:
+                    if isinstance(t, (ast.Tuple, ast.List)) and isinstance(n.value, (ast.Tuple, ast.List)) and \
+                            len(t.elts) == len(n.value.elts) and all(isinstance(e_, ast.Name) for e_ in t.elts):
+                        for e_, v_ in zip(t.elts, n.value.elts):   # a, b = x, y  binds a to x and b to y
+                            self._bind(e_.id, 'assign', v_)
+                        continue
                     if isinstance(t, ast.Name):
                         self._bind(t.id, 'assign', n.value)
                     elif self.self_attrs and isinstance(t, ast.Attribute) and isinstance(t.value, ast.Name) and \
@@ -124,6 +130,10 @@ class Canon:
 
     def _one(self, name, kind, payload) -> Optional[str]:
         if kind == 'assign':
+            if isinstance(payload, ast.IfExp):
+                # x = a if c else b   names the same alternatives as   if c: x = a / else: x = b
+                arms = sorted({self._one(name, 'assign', payload.body), self._one(name, 'assign', payload.orelse)})
+                return arms[0] if len(arms) == 1 else 'phi(' + ' | '.join(arms) + ')'
             inner = self.text(payload)
             simple = isinstance(payload, (ast.Name, ast.Constant, ast.Attribute, ast.Call, ast.Subscript))
             return inner if simple else f'({inner})'
@@ -154,7 +164,13 @@ class Canon:
                 tok = ('ctx' if toks is None and all(k == 'ctx' for k, _ in self.bindings[name]) else 'var') + \
                     str(self.order.index(name))
             else:
-                distinct = sorted(set(toks))
+                flat = []
+                for t_ in toks:
+                    if t_.startswith('phi(') and t_.endswith(')') and t_.count('phi(') == 1:
+                        flat += t_[4:-1].split(' | ')
+                    else:
+                        flat.append(t_)
+                distinct = sorted(set(flat))
                 if len(distinct) == 1:
                     tok = distinct[0]
                 elif len(distinct) <= 3 and all(k == 'assign' for k, _ in self.bindings[name]):
@@ -207,13 +223,28 @@ class Canon:
 
         class R(ast.NodeTransformer):
             def visit_Name(self, n):
-                if isinstance(n.ctx, ast.Load):
+                if isinstance(n.ctx, ast.Load) and depth > 0:
                     v = canon.single_value(n.id)
-                    if v is not None and depth > 0:
+                    if v is not None:
                         return canon.resolve(v, depth - 1)
+                    b = canon.bindings.get(n.id)
+                    if b and len(b) == 1 and b[0][0] == 'unpack' and n.id not in canon.params and \
+                            len(b[0][1][1]) == 1 and isinstance(b[0][1][1][0], int):
+                        # a, b = <expr>   ->  a is <expr>[0]
+                        src, path = b[0][1]
+                        return ast.Subscript(value=canon.resolve(src, depth - 1), slice=ast.Constant(value=path[0]),
+                                             ctx=ast.Load())
                 return n
 
-        return R().visit(copy.deepcopy(node))
+            def visit_Call(self, n):
+                n = self.generic_visit(n)
+                if canon.inliner is not None and isinstance(n.func, ast.Name) and depth > 0:
+                    r = canon.inliner(n)
+                    if r is not None:
+                        return canon.resolve(r, depth - 1)  # the helper's own calls of simple helpers, too
+                return n
+
+        return ast.fix_missing_locations(R().visit(copy.deepcopy(node)))
 
     def aliases(self) -> Dict[str, ast.AST]:
         """single-assignment locals and the expression they stand for (for guards.GuardEval)"""
@@ -344,3 +375,56 @@ def localise(f, roles: Dict[str, object], strict: bool = True):
     new = copy.copy(f)
     new.node = _RenameLocals(mapping).visit(copy.deepcopy(f.node))
     return new
+
+
+
+def helper_inliner(program, module_name: str, nested_in=None, exclude=()):
+    """-> function(call) that replaces a call of a *simple* helper defined next to the caller (module level, or nested in
+    `nested_in`) by the helper's return expression with the arguments substituted.  Simple: positional/keyword
+    parameters only, a body of plain single assignments followed by one `return <expr>` (no branches, loops, yields)."""
+    def find(name):
+        if nested_in is not None:
+            for n in ast.walk(nested_in):
+                if isinstance(n, ast.FunctionDef) and n.name == name and n is not nested_in:
+                    return n
+        f = program.find_func(f'{module_name}:{name}')
+        return f.node if f is not None else None
+
+    def inline(call):
+        if not isinstance(call.func, ast.Name) or call.func.id in exclude:
+            return None
+        fn = find(call.func.id)
+        if fn is None or fn.args.vararg or fn.args.kwarg or fn.decorator_list:
+            return None
+        body = [st for st in fn.body if not (isinstance(st, ast.Expr) and isinstance(st.value, ast.Constant))]
+        if not body or not isinstance(body[-1], ast.Return) or body[-1].value is None:
+            return None
+        if not all(isinstance(st, ast.Assign) and len(st.targets) == 1 and isinstance(st.targets[0], ast.Name)
+                   for st in body[:-1]):
+            return None
+        params = [a.arg for a in fn.args.args]
+        bind = {}
+        for i, a in enumerate(call.args):
+            if isinstance(a, ast.Starred) or i >= len(params):
+                return None
+            bind[params[i]] = a
+        for kw in call.keywords:
+            if kw.arg is None or kw.arg not in params:
+                return None
+            bind[kw.arg] = kw.value
+        defaults = dict(zip(params[len(params) - len(fn.args.defaults):], fn.args.defaults))
+        for p_ in params:
+            if p_ not in bind:
+                if p_ not in defaults:
+                    return None
+                bind[p_] = defaults[p_]
+        inner = Canon(fn)
+        expr = inner.resolve(body[-1].value)
+
+        class S(ast.NodeTransformer):
+            def visit_Name(self, n):
+                if isinstance(n.ctx, ast.Load) and n.id in bind:
+                    return copy.deepcopy(bind[n.id])
+                return n
+        return S().visit(copy.deepcopy(expr))
+    return inline
